@@ -373,7 +373,7 @@ def run(tier, rep):
     rep.cov['states'] = total.cases
     rep.cov['transitions'] = total.traces
     rep.cov['traces_validated_against_impl'] = total.traces
-    rep.cov['evaluations'] = total.cases
+    rep.cov['evaluations'] = total.traces
     rep.cov['distinct_nontrivial'] = total.nontrivial
     rep.cov['identifier_occurrences_renamed'] = total.renamed
     rep.outcome(total.out)
@@ -382,7 +382,8 @@ def run(tier, rep):
         'every scope tree with <= 3 scopes (chain and siblings) x scope kind '
         'x declaration profile x reference profile; the boundary family; S2 '
         'programs; each x printer configuration.  states = programs, '
-        'transitions = (program, configuration) pairs judged with R4; '
+        'transitions = evaluations = (program, configuration) pairs judged '
+        'with R4; '
         'non-trivial = at least one identifier was renamed')
     rep.cov['bounds'] = {'scopes': 3 if tier == 'quick' else 4,
                          'decl_profiles': DECLS, 'ref_profiles': REFS,
